@@ -3,7 +3,10 @@
    the initial state, and the per-terminal-state emission used by the drivers (C16/C17/C18).     *)
 EXTENDS Recovery, Json
 
-CONSTANTS Shape,        \* "pipe1".."pipe5", "pipe3x".."pipe5x" (alternating locations), "scat1".."scat4", "scat2n".. (no job before the scatter)
+CONSTANTS Shape,        \* "pipe1".."pipe5", "pipe3x".."pipe5x" (alternating locations), "scat1".."scat4", "scat2n".. (no job before the scatter),
+                        \* "dag4".."dag6": fork/join DAGs (a chain plus skip edges, see DagParents)
+          FailJobs,     \* the jobs in which failures are injected ({} = every job)
+          MaxLose,      \* kind "fail_sel": at most this many jobs lose their outputs at one failure (only provenance ancestors of the failing job)
           MaxPairs,     \* at most this many failing (job, phase) pairs
           MaxTimes,     \* each failing 1..MaxTimes times
           Kinds,        \* subset of {"soft", "fail_stop"}
@@ -11,7 +14,7 @@ CONSTANTS Shape,        \* "pipe1".."pipe5", "pipe3x".."pipe5x" (alternating loc
           Limits,       \* set of max_retries values (each \leq Limit)
           Managers      \* subset of BOOLEAN: FALSE = RollbackFailureManager, TRUE = DummyFailureManager
 
-Letters == <<"a", "b", "c", "d", "e">>
+Letters == <<"a", "b", "c", "d", "e", "f">>
 PipeN == CASE Shape \in {"pipe1"} -> 1 [] Shape \in {"pipe2", "pipe2x"} -> 2 [] Shape \in {"pipe3", "pipe3x"} -> 3
            [] Shape \in {"pipe4", "pipe4x"} -> 4 [] Shape \in {"pipe5", "pipe5x"} -> 5 [] OTHER -> 0
 ScatN == CASE Shape \in {"scat1", "scat1n"} -> 1 [] Shape \in {"scat2", "scat2n"} -> 2 [] Shape \in {"scat3", "scat3n"} -> 3
@@ -20,22 +23,38 @@ ScatPre == Shape \in {"scat1", "scat2", "scat3", "scat4"}
 Elems == <<"b0", "b1", "b2", "b3">>
 ElemSet == {Elems[i] : i \in 1..ScatN}
 IsX == Shape \in {"pipe2x", "pipe3x", "pipe4x", "pipe5x"}
+\* fork/join DAGs with ONE topological order (the chain a -> b -> c -> ... plus skip edges): sequential by construction, so
+\* the real engine follows the sequential semantics of this module without any imposed schedule.
+\*   dag4: c also reads a, d also reads b              dag5: c also reads a, e also reads b
+\*   dag6: c also reads a, f also reads b (the long way round from f to a is two jobs longer than the short one)
+DagN == CASE Shape = "dag4" -> 4 [] Shape = "dag5" -> 5 [] Shape = "dag6" -> 6 [] OTHER -> 0
+DagSkip == CASE Shape = "dag4" -> {<<"c", "a">>, <<"d", "b">>}
+             [] Shape = "dag5" -> {<<"c", "a">>, <<"e", "b">>}
+             [] Shape = "dag6" -> {<<"c", "a">>, <<"f", "b">>}
+             [] OTHER -> {}
 
 MCJobs == IF PipeN > 0 THEN {Letters[i] : i \in 1..PipeN}
+          ELSE IF DagN > 0 THEN {Letters[i] : i \in 1..DagN}
           ELSE (IF ScatPre THEN {"a"} ELSE {}) \cup ElemSet \cup {"c"}
-Idx(x) == CHOOSE i \in 1..5 : Letters[i] = x
+Idx(x) == CHOOSE i \in 1..6 : Letters[i] = x
 MCParents == [x \in MCJobs |->
                 IF PipeN > 0 THEN (IF x = "a" THEN {} ELSE {Letters[Idx(x) - 1]})
+                ELSE IF DagN > 0 THEN (IF x = "a" THEN {} ELSE {Letters[Idx(x) - 1]}) \cup {e[2] : e \in {e \in DagSkip : e[1] = x}}
                 ELSE CASE x = "a" -> {}
                        [] x = "c" -> ElemSet
                        [] OTHER -> IF ScatPre THEN {"a"} ELSE {}]
 MCLoc == [x \in MCJobs |-> IF IsX /\ Idx(x) % 2 = 0 THEN "L2" ELSE "L1"]
-MCSink == IF PipeN > 0 THEN Letters[PipeN] ELSE "c"
+MCSink == IF PipeN > 0 THEN Letters[PipeN] ELSE IF DagN > 0 THEN Letters[DagN] ELSE "c"
+\* strict provenance ancestors (in the DAG shapes: every job before x in the chain)
+MCAnc(x) == IF DagN > 0 THEN {Letters[i] : i \in 1..(Idx(x) - 1)} ELSE {}
 
-PlanPairs == MCJobs \X PhasesUsed
+PlanPairs == (IF FailJobs = {} THEN MCJobs ELSE FailJobs \cap MCJobs) \X PhasesUsed
 MCInit ==
   \E S \in {T \in SUBSET PlanPairs : Cardinality(T) <= MaxPairs} :
     \E tm \in [S -> 1..MaxTimes], kd \in [S -> Kinds], l \in Limits, m \in Managers :
+    \E ls \in [S -> IF "fail_sel" \in Kinds THEN SUBSET MCJobs ELSE {{}}] :
+      /\ \A k \in S : IF kd[k] = "fail_sel" THEN ls[k] \subseteq MCAnc(k[1]) /\ ls[k] # {} /\ Cardinality(ls[k]) <= MaxLose ELSE ls[k] = {}
+      /\ lose = [k \in MCJobs \X PhSet |-> IF k \in S THEN ls[k] ELSE {}]
       /\ lim = l /\ dummy = m
       /\ plan = [k \in MCJobs \X PhSet |-> IF k \in S THEN tm[k] ELSE 0]
       /\ kind = [k \in MCJobs \X PhSet |-> IF k \in S THEN kd[k] ELSE "soft"]
@@ -43,24 +62,26 @@ MCInit ==
       /\ stk = <<Frame0>> /\ cur = "none"
       /\ gen = [x \in Jobs |-> 0]
       /\ avail = [x \in Jobs |-> [g \in Gens |-> {}]]
-      /\ prov = [x \in Jobs |-> [g \in Gens |-> NoIns]]
+      /\ prov = [x \in Jobs |-> [g \in Gens |-> {}]]
       /\ version = [x \in Jobs |-> 1]
       /\ attempts = [x \in Jobs |-> [ph \in PhSet |-> 0]]
       /\ status = "running" /\ hist = <<>>
-      /\ failedEver = {} /\ lostEver = {} /\ stale = {}
+      /\ failedEver = {} /\ lostEver = {} /\ stale = {} /\ superseded = {} /\ natural2 = {}
 
 \* the observable schedule is history: hide it (and the other history variables) when only checking properties
-View == <<lim, dummy, plan, budget, kind, stk, cur, gen, avail, prov, version, attempts, status>>
+View == <<lim, dummy, plan, budget, kind, lose, stk, cur, gen, avail, prov, version, attempts, status>>
 GenBound == \A x \in Jobs : gen[x] < MaxGen
 
 \* ---- emission (generation configs, -workers 1): one JSON line per terminal state
 PlanJ == [k \in {<<x, ph>> \in Jobs \X PhSet : plan[<<x, ph>>] > 0} |-> <<plan[k], kind[k]>>]
 PairKey(k) == k[1] \o "|" \o k[2]
 PlanRec == LET ks == {k \in Jobs \X PhSet : plan[k] > 0}
-           IN [s \in {PairKey(k) : k \in ks} |-> LET k == CHOOSE k \in ks : PairKey(k) = s IN <<plan[k], kind[k]>>]
+           IN [s \in {PairKey(k) : k \in ks} |-> LET k == CHOOSE k \in ks : PairKey(k) = s
+                                                  IN IF kind[k] = "fail_sel" THEN <<plan[k], kind[k], lose[k]>> ELSE <<plan[k], kind[k]>>]
 Emit == PrintT(ToJson([shape |-> Shape, limit |-> lim, dummy |-> dummy, plan |-> PlanRec, hist |-> hist,
                        outcome |-> status, attempts |-> attempts, version |-> version, gen |-> gen,
-                       rolled |-> lostEver, failed |-> failedEver, stale |-> stale]))
+                       rolled |-> lostEver, failed |-> failedEver, stale |-> stale,
+                       superseded |-> superseded, natural2 |-> natural2]))
 GenFinalize == /\ status \in {"done", "raised"} /\ Emit /\ Finalize
 GenNext == (\E x \in Jobs : RunPhase(x)) \/ GenFinalize
 MCSpec == MCInit /\ [][Next]_vars /\ WF_vars(Next)
